@@ -288,6 +288,7 @@ Definition scalar_node (n : str) (v : pv) : outcome value :=
     | PStr s => Ok (VString s false None)
     | PInt z => Ok (VString (str_of_Z z) false None)
     | PBool b => Ok (VString (if b then lit "true" else lit "false") false None)
+    | PFloat r => Ok (VString r false None)            (* str(float) = repr *)
     | _ => Crash K_PRINT
     end
   else if str_eqb n (S_ "Boolean") then Ok (VBool (truthy v) None)
@@ -295,6 +296,8 @@ Definition scalar_node (n : str) (v : pv) : outcome value :=
     match v with
     | PStr s => if int_re s then Ok (VInt s None) else Ok (VString s false None)
     | PInt z => Ok (VInt (str_of_Z z) None)
+    | PBool b => Ok (VString (if b then lit "True" else lit "False") false None)   (* str(bool) *)
+    | PFloat r => if int_re r then Ok (VInt r None) else Ok (VString r false None)
     | _ => Crash K_PRINT
     end
   else
